@@ -185,8 +185,15 @@ def finish(prop, tier, seed, sel, results, log, t0, scratch, scratch_repo, skip_
         descs = "; ".join(f["description"][:100] for f in r.unknown_failed[:3])
         print("  obligation %s FAILED in %s: %s" % (r.ob.name, ",".join(r.ob.fns), descs))
         print("VIOLATION property=%s replay=%s%s" % (prop, path, "" if found else " no-failing-input-found"))
+    by_reason = {}
     for r in undecided:
-        print("UNDECIDED property=%s obligation=%s reason=%s" % (prop, r.ob.name, r.reason[:300]))
+        by_reason.setdefault(r.reason[:300], []).append(r.ob.name)
+    for reason, names in by_reason.items():
+        if len(names) > 3:
+            print("UNDECIDED property=%s obligations=%d (%s ..) reason=%s" % (prop, len(names), ", ".join(names[:3]), reason))
+        else:
+            for n in names:
+                print("UNDECIDED property=%s obligation=%s reason=%s" % (prop, n, reason))
     for o in missing:
         print("UNDECIDED property=%s obligation=%s reason=no-result" % (prop, o.name))
     if violations:
